@@ -214,6 +214,25 @@ func MaxPayloadOrDocumented() int {
 	return mp
 }
 
+// ProbeLateOpen measures what Open does on a mux that is already closed: a Write on the
+// connection it returns fails with EOF iff the connection is handed out closed (repaired
+// behaviour); on the pinned code the Write reaches the closed trunk and fails there.
+func ProbeLateOpen() bool {
+	a, b, err := Pair()
+	if err != nil {
+		return false
+	}
+	defer b.Close()
+	m := mux.Multiplex(a)
+	m.Close()
+	c, err := m.Open(mux.LowestConnID + 7)
+	if err != nil || c == nil {
+		return false
+	}
+	_, werr := c.Write([]byte{1})
+	return Classify(werr) == "eof"
+}
+
 // ---- crash isolation -------------------------------------------------------------------
 
 const workerEnv = "VERIFH_MUX_WORKER"
